@@ -967,6 +967,65 @@ def run_close_on_open(ck, h, rng, quick):
     ck.count("close_in_opened_scripts", len(scripts))
 
 
+def run_sync_connect(ck, hc, rng, quick):
+    """the blocking CS104_Connection_connect on one object over several attempts: what it returns and what the connection handler is
+    told must agree for EACH attempt (true <-> OPENED and no FAILED; false <-> FAILED once and no OPENED), whatever the previous
+    attempt on the same object ended with"""
+    scripts = []
+    for i in range(8 if quick else 80):
+        lines = []
+        for _ in range(rng.range(2, 5)):
+            r = rng.below(10)
+            if r < 4:
+                lines += ["sconnect refuse"]
+            elif r < 7:
+                lines += ["sconnect", "close"]
+            else:
+                lines += ["sconnect", "peerclose", "close"]
+        lines += ["sconnect", "close", "destroy"]
+        scripts.append(("sc%d" % i, lines))
+    rc = runner.run_batch(hc, scripts)
+    for sid, lines in scripts:
+        ck.evaluations += 1
+        o = rc.get(sid, dict(out=[], crash=None))
+        if o["crash"]:
+            ck.fail("input", crash_sig(o["crash"]), "client aborted: %s at %s" % (o["crash"]["kind"], o["crash"]["site"]), {"script": lines, "stderr": o["crash"]["text"], "harness": "h_cs104c"})
+            continue
+        blocks, cur = [], []
+        for l in o["out"]:
+            if l == ".":
+                blocks.append(cur); cur = []
+            else:
+                cur.append(l)
+        # events of one attempt: from its sconnect block up to (not including) the next sconnect block
+        att = []
+        for cmd, blk in zip(lines, blocks):
+            if cmd.startswith("sconnect"):
+                att.append([cmd, None, []])
+            if att:
+                for l in blk:
+                    if l.startswith("sconnect ret="):
+                        att[-1][1] = int(l.split("=")[1])
+                    elif l.startswith("ev "):
+                        att[-1][2].append(l.split()[1])
+        for n, (cmd, ret, evs) in enumerate(att, 1):
+            bad = None
+            if ret is None:
+                continue
+            if ret == 1 and ("OPENED" not in evs or "FAILED" in evs):
+                bad = "connect() returned true, the handler was told %s" % evs
+            elif ret == 0 and ("OPENED" in evs or evs.count("FAILED") != 1):
+                bad = "connect() returned false, the handler was told %s (expected exactly one FAILED and no OPENED)" % evs
+            elif (cmd.endswith("refuse")) != (ret == 0):
+                bad = "connect() returned %d for an attempt the peer %s" % (ret, "refused" if cmd.endswith("refuse") else "accepted")
+            if bad:
+                ck.fail("input", "oracle:life:client-connect-result", "client lifecycle: attempt %d (`%s`) on one connection object: %s" % (n, cmd, bad),
+                        {"script": lines, "observed": [l for l in o["out"] if l.startswith(("ev ", "sconnect"))][-10:], "harness": "h_cs104c"})
+                break
+        ck.nontriv(("sconnect", tuple(lines)))
+    ck.count("sync_connect_scripts", len(scripts))
+
+
 def run(ck):
     quick = ck.tier == "quick"
     rng = core.Rng(ck.seed)
@@ -998,6 +1057,7 @@ def run(ck):
         m = None
         ck.fail("correspondence", "model-build", "extracted model does not build: " + str(e)[:300], {"theorem": "extraction"})
     run_close_on_open(ck, h, rng, quick)
+    run_sync_connect(ck, client_harness(), rng, quick)
     fixed, probe_lines, probe_res = probe_fix(h, n_table)
     ck.extra["fix_null_free_connection_present"] = fixed
     g = Gen(rng, n_table)
